@@ -44,6 +44,13 @@ enum E2<'a> {
 #[derive(Debug, PartialEq, zlink_core::ReplyError)]
 #[zlink(interface = "a", crate = "zlink_core")]
 enum E0 {}
+/// errors of an interface whose name merely begins like the standard one
+#[derive(Debug, PartialEq, zlink_core::ReplyError)]
+#[zlink(interface = "org.varlink.services", crate = "zlink_core")]
+enum E3 {
+    Busy,
+    Slow { n: u8 },
+}
 
 #[derive(Debug, Serialize)]
 struct Ping {
@@ -68,6 +75,11 @@ trait ClassifyProxy {
     async fn p2e2(&mut self) -> zlink_core::Result<Result<Value, E0>>;
     async fn p3e2(&mut self) -> zlink_core::Result<Result<Strict, E0>>;
     async fn p4e2(&mut self) -> zlink_core::Result<Result<Option<Strict>, E0>>;
+    async fn p0e3(&mut self) -> zlink_core::Result<Result<(), E3>>;
+    async fn p1e3(&mut self) -> zlink_core::Result<Result<AllOpt, E3>>;
+    async fn p2e3(&mut self) -> zlink_core::Result<Result<Value, E3>>;
+    async fn p3e3(&mut self) -> zlink_core::Result<Result<Strict, E3>>;
+    async fn p4e3(&mut self) -> zlink_core::Result<Result<Option<Strict>, E3>>;
 }
 
 #[derive(Clone, Debug)]
@@ -130,6 +142,9 @@ fn frames() -> Vec<Frame> {
         (Some("io.systemd.System"), Some(fit_strict.clone()), "undeclared error with parameters that fit a success"),
         (Some("x.Nope"), Some(json!({})), "undeclared error, empty parameters"),
         (Some("a.unit"), None, "error name differing in case"),
+        (Some("org.varlink.services.Busy"), None, "error of an interface whose name begins like the standard one"),
+        (Some("org.varlink.services.Slow"), Some(json!({"n": 2})), "struct error of an interface whose name begins like the standard one"),
+        (Some("org.varlink.service2.X"), None, "undeclared error of another interface whose name begins like the standard one"),
         (Some("a.IOError"), Some(json!({"n": 1})), "declared error whose wire name is a rename"),
         (Some("a.IoErr"), Some(json!({"n": 1})), "the Rust spelling of a renamed error (not a wire name)"),
         (Some(""), None, "empty error name"),
@@ -284,6 +299,11 @@ fn structural(text: &str, declared: &[&str]) -> Structural {
     }
     match name {
         "a.Unit" if empty => Structural::Method("Unit".into()),
+        "org.varlink.services.Busy" if empty => Structural::Method("Busy".into()),
+        "org.varlink.services.Slow" => match params.and_then(|p| p.as_object()).filter(|m| m.len() == 1).and_then(|m| m.get("n")).and_then(|n| n.as_u64()).filter(|n| *n <= 255) {
+            Some(n) => Structural::Method(format!("Slow {{ n: {n} }}")),
+            None => Structural::Unclear,
+        },
         "a.IOError" => match params.and_then(|p| p.as_object()).filter(|m| m.len() == 1).and_then(|m| m.get("n")).and_then(|n| n.as_u64()).filter(|n| *n <= 255) {
             Some(n) => Structural::Method(format!("IoErr {{ n: {n} }}")),
             None => Structural::Unclear,
@@ -412,7 +432,7 @@ macro_rules! run_one {
 
 const PATHS: [&str; 5] = ["receive_reply", "call_method", "receive_reply, as the second frame of one arrival", "receive_reply, right after a reply that continues", "a generated proxy method"];
 const NP: usize = 5;
-const NE: usize = 3;
+const NE: usize = 4;
 
 fn one(fr: &[Frame], i: u64, sink: &mut Sink<'_>) {
     let nf = fr.len() as u64;
@@ -420,25 +440,27 @@ fn one(fr: &[Frame], i: u64, sink: &mut Sink<'_>) {
     let rest = i / nf;
     let (p, e, path) = ((rest % NP as u64) as usize, (rest / NP as u64 % NE as u64) as usize, (rest / (NP * NE) as u64) as usize);
     let pnames = ["()", "AllOpt{a:Option<u8>}", "serde_json::Value", "Strict{n:u8,s:String}", "Option<Strict>"];
-    let enames = ["E1{Unit,St{n,s:String},IOError{n}}", "E2<'a>{Unit,St{n,s:&str},IOError{n}}", "E0{}"];
+    let enames = ["E1{Unit,St{n,s:String},IOError{n}}", "E2<'a>{Unit,St{n,s:&str},IOError{n}}", "E0{}", "E3 of interface org.varlink.services {Busy,Slow{n}}"];
     let case = json!({"frame": f.text, "what": f.what, "expected_parameters": pnames[p], "error_type": enames[e], "path": PATHS[path], "index": i});
     const D: &[&str] = &["a.Unit", "a.St", "a.IOError"];
     const NONE: &[&str] = &[];
+    const D3: &[&str] = &["org.varlink.services.Busy", "org.varlink.services.Slow"];
     macro_rules! with_e {
-        ($P:ty, $m0:ident, $m1:ident, $m2:ident) => {
+        ($P:ty, $m0:ident, $m1:ident, $m2:ident, $m3:ident) => {
             match e {
                 0 => run_one!($P, E1, D, f, path, $m0),
                 1 => run_one!($P, E2<'_>, D, f, path, $m1),
-                _ => run_one!($P, E0, NONE, f, path, $m2),
+                2 => run_one!($P, E0, NONE, f, path, $m2),
+                _ => run_one!($P, E3, D3, f, path, $m3),
             }
         };
     }
     let (verdict, got) = match p {
-        0 => with_e!((), p0e0, p0e1, p0e2),
-        1 => with_e!(AllOpt, p1e0, p1e1, p1e2),
-        2 => with_e!(Value, p2e0, p2e1, p2e2),
-        3 => with_e!(Strict, p3e0, p3e1, p3e2),
-        _ => with_e!(Option<Strict>, p4e0, p4e1, p4e2),
+        0 => with_e!((), p0e0, p0e1, p0e2, p0e3),
+        1 => with_e!(AllOpt, p1e0, p1e1, p1e2, p1e3),
+        2 => with_e!(Value, p2e0, p2e1, p2e2, p2e3),
+        3 => with_e!(Strict, p3e0, p3e1, p3e2, p3e3),
+        _ => with_e!(Option<Strict>, p4e0, p4e1, p4e2, p4e3),
     };
     if f.has_error {
         sink.goal("reply-with-error-member");
@@ -475,7 +497,7 @@ fn one(fr: &[Frame], i: u64, sink: &mut Sink<'_>) {
 pub fn run(tier: Tier) -> i32 {
     let mut rep = Report::new("C04", tier.name());
     let (fr, nbase) = all_frames();
-    rep.rule = format!("complete product: {} reply frames ({nbase} base frames + each extended by one character or bulked up to 300/1100/2100/4700 bytes in up to four meaning-preserving ways: whitespace, an unknown member in front / at the end, a long string parameter; + each with its member names spelled with JSON escapes; base frames: success / declared unit and struct errors with right, wrong-typed, missing, extra, absent parameters / undeclared errors / the six org.varlink.service errors with and without their parameters / error replies whose parameters fit the expected success type; x continues absent|true|false x every member order) x 5 expected parameter types x 3 error types (derived, derived with lifetime, empty enum) x {{receive_reply, call_method, receive_reply as the second frame of one arrival, receive_reply right after a reply with continues:true, a generated proxy method}}. Distinct = distinct (frame, types, classification)", fr.len());
+    rep.rule = format!("complete product: {} reply frames ({nbase} base frames + each extended by one character or bulked up to 300/1100/2100/4700 bytes in up to four meaning-preserving ways: whitespace, an unknown member in front / at the end, a long string parameter; + each with its member names spelled with JSON escapes; base frames: success / declared unit and struct errors with right, wrong-typed, missing, extra, absent parameters / undeclared errors / the six org.varlink.service errors with and without their parameters / error replies whose parameters fit the expected success type; x continues absent|true|false x every member order) x 5 expected parameter types x 4 error types (derived, derived with lifetime, empty enum, derived for an interface named org.varlink.services) x {{receive_reply, call_method, receive_reply as the second frame of one arrival, receive_reply right after a reply with continues:true, a generated proxy method}}. Distinct = distinct (frame, types, classification)", fr.len());
     rep.assumptions = vec![
         "an error type recognises a reply whose error name is one of its declared variants and whose parameters are exactly the variant's fields with values of the right types (none for a field-less variant: absent, null or {}); likewise for the six standard errors. This is decided from the reply's JSON value, not with the library's decoders; members of the reply other than error and parameters (continues, unknown ones) do not matter. Where the parameters are ill-formed or have surplus members the statement leaves room: there a reply counts as recognised iff serde_json decodes the frame as the error type".into(),
         "a standard error is one whose name is in org.varlink.service and which decodes as varlink_service::Error; ill-formed ones must simply not be a success".into(),
